@@ -277,7 +277,9 @@ func runC16(c *Ctx) {
 	if initCall == nil {
 		c.fail("C16.R2", "init-call "+m.fnName(probe), "no DriverInit call on the probed driver found", m.pos(probe.Pos()))
 	} else {
-		initErrNil := func(f Fact) bool { return isNilFact(f, token.EQL, func(v ssa.Value) bool { return v == ssa.Value(initCall) }) }
+		initErrNil := func(f Fact) bool {
+			return isNilFact(f, token.EQL, func(v ssa.Value) bool { return v == ssa.Value(initCall) })
+		}
 		drvNonNil := func(f Fact) bool { return isNilFact(f, token.NEQ, isDrv) }
 		nact := 0
 		for n, in := range gp.Ins {
@@ -531,7 +533,9 @@ func runC16(c *Ctx) {
 	default:
 		okAll := true
 		for _, dn := range drains {
-			if !hasFact(gs.FactsAt(dn), func(f Fact) bool { return isNilFact(f, token.NEQ, func(v ssa.Value) bool { return v == ssa.Value(wP) }) }) {
+			if !hasFact(gs.FactsAt(dn), func(f Fact) bool {
+				return isNilFact(f, token.NEQ, func(v ssa.Value) bool { return v == ssa.Value(wP) })
+			}) {
 				okAll = false
 				c.fail("C16.R5", "drain "+m.fnName(setSink), "the drain of the early buffer is not dominated by w != nil", gs.posOf(dn))
 			}
@@ -579,10 +583,14 @@ func runC16(c *Ctx) {
 	for n, in := range gd.Ins {
 		if m.callsTo(in, rbWrite) {
 			recv := callCommon(in).Args[0]
-			okRing = recv == ssa.Value(early) && hasFact(gd.FactsAt(n), func(f Fact) bool { return isNilFact(f, token.EQL, func(v ssa.Value) bool { return v == ssa.Value(wd) }) })
+			okRing = recv == ssa.Value(early) && hasFact(gd.FactsAt(n), func(f Fact) bool {
+				return isNilFact(f, token.EQL, func(v ssa.Value) bool { return v == ssa.Value(wd) })
+			})
 		}
 		if cc, ok := invokeOf(in, "Write"); ok && cc.Value == ssa.Value(wd) {
-			okW = hasFact(gd.FactsAt(n), func(f Fact) bool { return isNilFact(f, token.NEQ, func(v ssa.Value) bool { return v == ssa.Value(wd) }) })
+			okW = hasFact(gd.FactsAt(n), func(f Fact) bool {
+				return isNilFact(f, token.NEQ, func(v ssa.Value) bool { return v == ssa.Value(wd) })
+			})
 		}
 	}
 	c.check(okRing && okW, "C16.R5", "early-write "+m.fnName(doRealWrite), "writes to the early ring exactly on w == nil and to w otherwise",
